@@ -54,6 +54,6 @@ _RRD = {'C01': 'trees', 'C02': 'trees', 'C03': 'hash', 'C05': 'memory', 'C07': '
 for _pid, _fam in _RRD.items():
     if _pid in CHECKS:
         CHECKS[_pid]['runs'] = list(CHECKS[_pid]['runs']) + [
-            {'harness': 'reread', 'mode': _fam, 'sources': ['harness/reread.c'], 'configs': both(['rel-asan', 'mix-asan']), 'cflags': ['-O2'], 'workers': 1}]
+            {'harness': 'reread', 'mode': _fam, 'sources': ['harness/reread.c'], 'configs': both(['rel-asan', 'mix-asan', 'rel-native']), 'cflags': ['-O2'], 'workers': 1}]
         CHECKS[_pid]['assumptions'] = list(CHECKS[_pid].get('assumptions', [])) + [
             'supplement: look - change - look again with the ' + _fam + ' accessors inside one -O2 caller function (what a client compiler may assume from the public headers), also with the release library under a client compiled without NDEBUG (mix-asan)']
